@@ -229,3 +229,79 @@ def phaseless_weight_deviation(restricted=True, dt=0.05, seed=7):
     dev = float(np.abs(np.asarray(out["weights"]) - w_ref).max())
     return dev, dict(dt=dt, restricted=restricted, fields=x.tolist(), incoming_weights=w.tolist(), weights_after_step=np.asarray(out["weights"]).tolist(),
                      weights_from_formula=w_ref.tolist(), max_abs_deviation=dev)
+
+
+def free_projection_deviation(steps=3, seed=5):
+    """native replay for C05 fp.norm / fp.overlap: k real propagate_free steps (QR after each) against the SAME Trotter propagators applied without any
+    re-orthonormalisation: stored overlaps must equal the overlap of the un-normalised product, and overlap(stored walkers) * norms likewise."""
+    S = small_system(norb=3, nocc=1, nchol=2, seed=seed, restricted=False, n_walkers=3, dt=0.05)
+    import jax
+    import jax.numpy as jnp
+    trial, wave, ham = S["trial"], S["wave"], S["ham"]
+    prop = S["prop_cls"](dt=0.05, n_walkers=3)
+    hd = ham.build_measurement_intermediates(dict(S["ham_data"]), trial, wave)
+    hd = ham.build_propagation_intermediates(hd, prop, trial, wave)
+    pd = prop.init_prop_data(trial, wave, hd)
+    pd["key"] = jax.random.PRNGKey(seed)
+    pd["norms"] = jnp.ones(3) + 0j
+    rng = np.random.default_rng(seed)
+    raw = [np.asarray(pd["walkers"][0]).astype(complex), np.asarray(pd["walkers"][1]).astype(complex)]
+    worst = 0.0
+    for k in range(steps):
+        x = jnp.asarray(rng.normal(size=(3, hd["chol"].shape[0])))
+        pd = prop.propagate_free(trial, hd, pd, x, wave)
+        # reference: the same constants and Trotter propagator on the un-normalised walkers (no QR)
+        ref_pd = dict(walkers=[jnp.asarray(raw[0]), jnp.asarray(raw[1])], norms=jnp.ones(3) + 0j, overlaps=jnp.ones(3) + 0j, weights=jnp.ones(3), key=pd["key"])
+        out = _propagate_free_no_qr(prop, trial, hd, ref_pd, x, wave)
+        raw = [np.asarray(out[0]), np.asarray(out[1])]
+        o_ref = np.asarray(trial.calc_overlap([jnp.asarray(raw[0]), jnp.asarray(raw[1])], wave))
+        o_stored = np.asarray(pd["overlaps"])
+        o_recon = np.asarray(trial.calc_overlap(pd["walkers"], wave)) * np.asarray(pd["norms"])
+        worst = max(worst, float(np.max(np.abs(o_stored - o_ref) / np.abs(o_ref))), float(np.max(np.abs(o_recon - o_ref) / np.abs(o_ref))))
+    return worst, dict(steps=steps, max_rel_deviation_of_stored_overlap_from_unnormalised_product=worst)
+
+
+def _propagate_free_no_qr(prop, trial, hd, pd, fields, wave):
+    """the statements of propagate_free up to (not including) the re-orthonormalisation, executed through the real helpers with qr_vmap_uhf
+    replaced by the identity (Q := A, norm factors := 1)"""
+    from ad_afqmc import linalg_utils, propagation
+    import jax.numpy as jnp
+    saved = linalg_utils.qr_vmap_uhf
+    try:
+        linalg_utils.qr_vmap_uhf = lambda w: (w, jnp.ones((2, w[0].shape[0])) + 0j)
+        fn = type(prop).propagate_free
+        fn = getattr(fn, "__wrapped__", fn)
+        out = fn(prop, trial, hd, dict(pd), fields, wave)
+    finally:
+        linalg_utils.qr_vmap_uhf = saved
+    return out["walkers"]
+
+
+def trotprop_deviation(seed=9):
+    """native replay for C04: the real unrestricted _apply_trotprop with DIFFERENT one-body half-step propagators per spin against
+    B_s sum_{n<n_exp_terms} vhs^n/n! B_s phi_s,  vhs = i sqrt(dt) sum_g x_g L_g"""
+    setup()
+    import math
+    import jax.numpy as jnp
+    from ad_afqmc import propagation
+    rng = np.random.default_rng(seed)
+    n, nocc, g, nw, dt = 3, 1, 2, 2, 0.05
+    prop = propagation.propagator_unrestricted(dt=dt, n_walkers=nw)
+    B = [np.eye(n) + 0.1 * rng.normal(size=(n, n)), np.eye(n) + 0.1 * rng.normal(size=(n, n))]
+    L = rng.normal(size=(g, n, n)); L = L + L.transpose(0, 2, 1)
+    w = [rng.normal(size=(nw, n, nocc)) + 1j * rng.normal(size=(nw, n, nocc)), rng.normal(size=(nw, n, nocc)) + 1j * rng.normal(size=(nw, n, nocc))]
+    x = rng.normal(size=(nw, g)) + 1j * rng.normal(size=(nw, g))
+    hd = dict(exp_h1=jnp.asarray(np.array(B)), chol=jnp.asarray(L.reshape(g, -1)))
+    out = prop._apply_trotprop(hd, [jnp.asarray(w[0]), jnp.asarray(w[1])], jnp.asarray(x))
+    dev = 0.0
+    for s in range(2):
+        for k in range(nw):
+            vhs = 1j * np.sqrt(dt) * np.einsum("g,gij->ij", x[k], L)
+            phi = B[s] @ w[s][k]
+            acc, term = phi.copy(), phi.copy()
+            for m in range(1, prop.n_exp_terms):
+                term = vhs @ term
+                acc = acc + term / math.factorial(m)
+            ref = B[s] @ acc
+            dev = max(dev, float(np.abs(np.asarray(out[s])[k] - ref).max()))
+    return dev, dict(check="unrestricted _apply_trotprop with exp_h1[0] != exp_h1[1] vs B_s sum vhs^n/n! B_s phi_s", max_abs_deviation=dev)
